@@ -1057,3 +1057,113 @@ func TestC19Dyadic(t *testing.T) {
 }
 
 func init() { reg("C19.dyadic", checkC19Dyadic) }
+
+// ---- abs / round / number_format on integers and floats of every width --------------------------------
+
+type C19WidthCase struct {
+	Kind   string `json:"kind"` // Go type of the context value
+	Num    string `json:"num"`  // its value as a decimal numeral
+	Filter string `json:"filter"`
+}
+
+func c19WidthValue(kind, num string) (interface{}, bool) {
+	i, ierr := strconv.ParseInt(num, 10, 64)
+	u, uerr := strconv.ParseUint(num, 10, 64)
+	f, _ := strconv.ParseFloat(num, 64)
+	switch kind {
+	case "int":
+		return int(i), ierr == nil
+	case "int8":
+		return int8(i), ierr == nil && i >= -128 && i <= 127
+	case "int16":
+		return int16(i), ierr == nil && i >= -32768 && i <= 32767
+	case "int32":
+		return int32(i), ierr == nil && i >= -(1<<31) && i < 1<<31
+	case "int64":
+		return i, ierr == nil
+	case "uint":
+		return uint(u), uerr == nil
+	case "uint8":
+		return uint8(u), uerr == nil && u <= 255
+	case "uint16":
+		return uint16(u), uerr == nil && u <= 65535
+	case "uint32":
+		return uint32(u), uerr == nil && u < 1<<32
+	case "uint64":
+		return u, uerr == nil
+	case "named":
+		return zNamedInt(i), ierr == nil
+	case "float32":
+		return float32(f), float64(float32(f)) == f
+	case "float64":
+		return f, true
+	}
+	return nil, false
+}
+
+func checkC19Width(c C19WidthCase) error {
+	v, ok := c19WidthValue(c.Kind, c.Num)
+	if !ok {
+		return nil
+	}
+	x, _ := new(big.Rat).SetString(c.Num)
+	src := map[string]string{"abs": "{{ v|abs }}", "round": "{{ v|round }}", "round1": "{{ v|round(1) }}", "number_format": "{{ v|number_format(0, '.', '') }}", "number_format2": "{{ v|number_format(2, '.', '') }}"}[c.Filter]
+	r := render1(src, map[string]interface{}{"v": v})
+	if r.Failed() {
+		return fmt.Errorf("%s with v = %s(%s) failed: %v", src, c.Kind, c.Num, r)
+	}
+	got, ok := new(big.Rat).SetString(r.Out)
+	if !ok {
+		return fmt.Errorf("%s with v = %s(%s) = %s: not a number", src, c.Kind, c.Num, q(r.Out))
+	}
+	var want []*big.Rat
+	switch c.Filter {
+	case "abs":
+		want = []*big.Rat{new(big.Rat).Abs(x)}
+	case "round", "number_format":
+		want = decRound(x, 0, "")
+	case "round1":
+		want = decRound(x, 1, "")
+	case "number_format2":
+		want = decRound(x, 2, "")
+	}
+	if c.Filter == "number_format2" {
+		if i := strings.IndexByte(r.Out, '.'); i < 0 || len(r.Out)-i-1 != 2 {
+			return fmt.Errorf("%s with v = %s(%s) = %s: want exactly 2 decimals", src, c.Kind, c.Num, q(r.Out))
+		}
+	}
+	for _, w := range want {
+		if got.Cmp(w) == 0 {
+			return nil
+		}
+	}
+	return fmt.Errorf("%s with v = %s(%s) = %s, exact decimal arithmetic gives %v", src, c.Kind, c.Num, q(r.Out), ratStrings(want, 2))
+}
+
+func TestC19Widths(t *testing.T) {
+	r := NewRec(t, "C19", "exhaustive: abs, round, round(1), number_format(0) and number_format(2) on context values of 13 Go number types (int, int8..int64, uint, uint8..uint64, a named int, float32, float64) x 24 numerals that fit the type (0, small, the bounds of each width, +-(2^53 + 1) and the int64 / uint64 bounds for abs, halves and quarters for the floats); oracle: exact decimal arithmetic (math/big); non-trivial = the type is not int or float64")
+	defer r.Flush()
+	r.SetExhaustive()
+	nums := []string{"0", "7", "-5", "100", "-100", "127", "-128", "255", "32767", "-32768", "65535", "2147483647", "-2147483648", "4294967295", "1234567", "-1234567", "0.5", "-2.25", "1.5", "-0.75", "1024.125"}
+	big53 := []string{"9007199254740993", "-9007199254740993", "9223372036854775807", "-9223372036854775807", "18446744073709551615"}
+	for _, kind := range []string{"int", "int8", "int16", "int32", "int64", "uint", "uint8", "uint16", "uint32", "uint64", "named", "float32", "float64"} {
+		for _, f := range []string{"abs", "round", "round1", "number_format", "number_format2"} {
+			ns := nums
+			if f == "abs" && kind != "float32" && kind != "float64" {
+				ns = append(append([]string{}, nums...), big53...)
+			}
+			for _, n := range ns {
+				c := C19WidthCase{Kind: kind, Num: n, Filter: f}
+				if _, ok := c19WidthValue(kind, n); !ok {
+					continue
+				}
+				r.Case(kind+n+f, kind != "int" && kind != "float64", c)
+				if err := checkC19Width(c); err != nil {
+					r.FailEnumKey(t, "C19.width", kind+"/"+f, c, err)
+				}
+			}
+		}
+	}
+}
+
+func init() { reg("C19.width", checkC19Width) }
